@@ -3,6 +3,7 @@ package projgen
 import (
 	"fmt"
 	"os"
+	"sort"
 	"strings"
 )
 
@@ -66,8 +67,17 @@ func Generate(seed uint64, profile string) *Project {
 	if profile == "order" {
 		nMdl = r.Range(1, 2)
 	}
+	// (swarm, own stream so that the rest of the project does not depend on it) a model package may live in a
+	// directory NESTED in a controller package's directory, under a name that sorts before, between or after
+	// the parent's own source files
+	nr := Stream(seed, "projgen/nested/"+profile, 0)
 	for i := 0; i < nMdl; i++ {
-		g.mdlPkgs = append(g.mdlPkgs, fmt.Sprintf("mdl%c", 'a'+i))
+		name := fmt.Sprintf("mdl%c", 'a'+i)
+		if nr.Chance(1, 3) {
+			parent := Pick(nr, g.ctlPkgs)
+			name = parent + "/" + Pick(nr, []string{"", "a0", "ctla_", "ctlb_", "ctlz_", "zz"}) + name
+		}
+		g.mdlPkgs = append(g.mdlPkgs, name)
 	}
 
 	// a pool of model types
@@ -115,7 +125,7 @@ func Generate(seed uint64, profile string) *Project {
 				s.Fields = append(s.Fields, g.acyclic(pkg, g.field(pkg, f, 1)))
 			}
 			// make the two differ
-			s.Fields = append(s.Fields, Field{GoName: "From" + strings.Title(pkg), JSON: "from_" + pkg, Type: TypeRef{Kind: "prim", Prim: "string"}})
+			s.Fields = append(s.Fields, Field{GoName: "From" + strings.Title(PkgName(pkg)), JSON: "from_" + PkgName(pkg), Type: TypeRef{Kind: "prim", Prim: "string"}})
 			p.Structs = append(p.Structs, s)
 		}
 	}
@@ -272,6 +282,36 @@ func Generate(seed uint64, profile string) *Project {
 			Shuffle(r, p.Globs)
 		}
 	}
+	// (swarm, order profile, own stream) globs that select only SOME files of a controller package: the files
+	// named after a strict, non-empty subset of the package's controllers. Controllers declared in the other
+	// files are not part of the API; types declared there are still resolved through the package.
+	if gr := Stream(seed, "projgen/partial-globs/"+profile, 0); profile == "order" && gr.Chance(1, 2) {
+		for gi, glob := range p.Globs {
+			if glob == "./*/*.go" {
+				continue
+			}
+			pkg := strings.TrimSuffix(strings.TrimPrefix(glob, "./"), "/*.go")
+			var names []string
+			for _, c := range p.Controllers {
+				if c.Pkg == pkg {
+					names = append(names, strings.ToLower(c.Name))
+				}
+			}
+			if len(names) < 2 {
+				continue
+			}
+			Shuffle(gr, names)
+			keep := names[:gr.Range(1, len(names)-1)]
+			sort.Strings(keep)
+			var repl []string
+			for _, n := range keep {
+				repl = append(repl, "./"+pkg+"/"+n+"_*.go")
+			}
+			p.Globs = append(append(append([]string{}, p.Globs[:gi]...), repl...), p.Globs[gi+1:]...)
+			p.PartialGlobs = true
+			break
+		}
+	}
 	return p
 }
 
@@ -292,7 +332,7 @@ func (g *genState) alt() Alt {
 }
 
 func (g *genState) typeFile(pkg string) string {
-	if strings.HasPrefix(pkg, "mdl") {
+	if isMdl(pkg) {
 		return fmt.Sprintf("types_%d.go", g.r.Range(0, 1))
 	}
 	switch g.r.Intn(6) {
@@ -345,7 +385,7 @@ func (g *genState) newAlias() TypeRef {
 		// an alias declared on top of another alias (of the same package, or of a model package a controller
 		// package may import)
 		for _, b := range g.p.Aliases {
-			if b.Pkg == pkg || (strings.HasPrefix(pkg, "ctl") && strings.HasPrefix(b.Pkg, "mdl")) {
+			if b.Pkg == pkg || (!isMdl(pkg) && isMdl(b.Pkg)) {
 				a.OfPkg, a.OfName, a.Prim = b.Pkg, b.Name, b.Prim
 				break
 			}
@@ -402,11 +442,11 @@ func (g *genState) field(pkg string, idx int, depth int) Field {
 // types of its own package or of model packages, and model packages only
 // import alphabetically smaller model packages.
 func (g *genState) acyclic(pkg string, f Field) Field {
-	if f.Type.Pkg != "" && f.Type.Pkg != pkg && strings.HasPrefix(f.Type.Pkg, "ctl") {
+	if f.Type.Pkg != "" && f.Type.Pkg != pkg && !isMdl(f.Type.Pkg) {
 		f.Type = TypeRef{Kind: "prim", Prim: "string"}
 		f.Validate = ""
 	}
-	if f.Type.Pkg != "" && f.Type.Pkg != pkg && strings.HasPrefix(pkg, "mdl") && f.Type.Pkg >= pkg {
+	if f.Type.Pkg != "" && f.Type.Pkg != pkg && isMdl(pkg) && f.Type.Pkg >= pkg {
 		f.Type = TypeRef{Kind: "prim", Prim: "int"}
 		f.Validate = ""
 	}
@@ -451,7 +491,7 @@ func visibleFrom(pkg string, t TypeRef) bool {
 	if t.Pkg == "" || t.Pkg == pkg {
 		return true
 	}
-	return strings.HasPrefix(t.Pkg, "mdl") // controller packages import model packages only
+	return isMdl(t.Pkg) // controller packages import model packages only
 }
 
 func (g *genState) pickNamed(pkg, kind string) (TypeRef, bool) {
